@@ -1,4 +1,5 @@
 #!/usr/bin/env bash
+[ -d /tmp/mut ] || git -C /repo worktree add --detach /tmp/mut HEAD -q   # scratch worktree (removed at the end of a session)
 # run.sh <diff>...: for each mutant patch: does the repo's suite still pass (scratch worktree)? does the
 # named property's quick check catch it (patch applied to /repo, reverted straight afterwards)?
 cd /verif
